@@ -215,9 +215,104 @@ def judgeTm (prop : String) (st : DState) (fields : List String) (impl : Option 
     | _, _ => "ok"
   | _ => "ok"
 
+/-- C11 / C12 / C16: governance -/
+def judgeGov (prop : String) (st : DState) (fields : List String) (impl : Option Outcome)
+    (model : Outcome) : String :=
+  let C := crypto st
+  let w := st.world
+  let modelOk := match model with | .ok _ _ _ => true | _ => false
+  let sameResults := match impl, model with
+    | some (.ok r _ _), .ok r' _ _ => r == r'
+    | some (.okNat n), .okNat m => n == m
+    | _, _ => true
+  match fields with
+  | ["tx", _src, dst, func, _egld, _esdt, args] =>
+    match ofHex dst, parseArgs args with
+    | some dst, some args =>
+      if w.kind dst != some .governance then "ok" else
+      if !implOk impl then "ok" else
+      match prop, func, args with
+      | "C11", "executeProposal", [t, cd, v] =>
+        let h := Governance.proposalHash C t cd (Codec.topBig v)
+        if !modelOk then "VIOLATION:dispatch-without-scheduled-matured-proposal"
+        else if st.cancelledTL.contains h then
+          (if st.restoredTL.contains h then "VIOLATION:dispatch-of-proposal-cancelled-between-dispatch-and-failure-callback"
+           else "VIOLATION:dispatch-of-cancelled-proposal")
+        else "ok"
+      | "C11", "execute", _ =>
+        if !modelOk then "VIOLATION:time-lock-command-accepted-against-rules" else "ok"
+      | "C12", "execute", _ =>
+        if !modelOk then "VIOLATION:unauthenticated-or-replayed-command-accepted" else "ok"
+      | "C12", "executeOperatorProposal", [t, cd, v] =>
+        let h := Governance.proposalHash C t cd (Codec.topBig v)
+        if !modelOk then "VIOLATION:operator-dispatch-without-approval-or-by-non-operator"
+        else if st.cancelledOp.contains h then
+          (if st.restoredOp.contains h then "VIOLATION:operator-dispatch-of-approval-cancelled-between-dispatch-and-failure-callback"
+           else "VIOLATION:operator-dispatch-of-cancelled-approval")
+        else "ok"
+      | "C12", "transferOperatorship", _ =>
+        if !modelOk then "VIOLATION:operator-changed-by-stranger" else "ok"
+      | "C12", "withdraw", _ =>
+        if !modelOk then "VIOLATION:funds-withdrawn-by-other-than-contract" else "ok"
+      | "C16", "withdrawRefundToken", _ => "ok"
+      | _, _, _ => "ok"
+    | _, _ => "ok"
+  | ["query", dst, func, _args] =>
+    match ofHex dst with
+    | some dst =>
+      if w.kind dst != some .governance || sameResults then "ok" else
+      match prop, func with
+      | "C11", "getProposalEta" => "VIOLATION:proposal-eta-differs-from-time-lock-rules"
+      | "C12", "isOperatorProposalApproved" => "VIOLATION:operator-approval-differs-from-rules"
+      | "C12", "getOperator" => "VIOLATION:operator-differs-from-rules"
+      | "C16", "getRefundToken" => "VIOLATION:refund-credit-not-exact"
+      | _, _ => "ok"
+    | none => "ok"
+  | ["bal", _a, _tok] =>
+    if prop == "C16" && !sameResults then "VIOLATION:balances-differ-from-credit-ledger" else "ok"
+  | ["cb", _id] =>
+    if implOk impl && !modelOk && prop == "C16" then "VIOLATION:callback-outcome-differs" else "ok"
+  | _ => "ok"
+
+/-- ghost update from the IMPLEMENTATION's outcome of an authenticated governance command -/
+def ghostUpdate (st : DState) (pre : DState) (fields : List String) (impl : Option Outcome) : DState :=
+  let C := crypto pre
+  match fields with
+  | ["tx", _src, dst, "execute", _egld, _esdt, args] =>
+    match ofHex dst, parseArgs args with
+    | some dst, some [_, _, _, payload] =>
+      if pre.world.kind dst != some .governance || !implOk impl then st else
+      match Codec.top Governance.decExecutePayload payload with
+      | some (cmd, t, cd, v, _) =>
+        let h := Governance.proposalHash C t cd v
+        match cmd with
+        | .schedule => { st with cancelledTL := st.cancelledTL.filter (· != h), restoredTL := st.restoredTL.filter (· != h) }
+        | .cancel => { st with cancelledTL := h :: st.cancelledTL, restoredTL := st.restoredTL.filter (· != h) }
+        | .approveOperator => { st with cancelledOp := st.cancelledOp.filter (· != h), restoredOp := st.restoredOp.filter (· != h) }
+        | .cancelOperator => { st with cancelledOp := h :: st.cancelledOp, restoredOp := st.restoredOp.filter (· != h) }
+      | none => st
+    | _, _ => st
+  | ["cb", id] =>
+    -- a failure callback of a governance dispatch writes the entry back
+    match id.toNat? with
+    | some id =>
+      match World.findPending pre.world.pending id with
+      | some p =>
+        match p.kind, p.result with
+        | .govDispatch _ d, some (false, _) =>
+          if !implOk impl then st
+          else if d.operatorProposal then
+            (if st.cancelledOp.contains d.hash then { st with restoredOp := d.hash :: st.restoredOp } else st)
+          else (if st.cancelledTL.contains d.hash then { st with restoredTL := d.hash :: st.restoredTL } else st)
+        | _, _ => st
+      | none => st
+    | none => st
+  | _ => st
+
 def judge (prop : String) (st : DState) (fields : List String) (impl : Option Outcome)
     (model : Outcome) (implMsg : String) : String :=
   match prop with
+  | "C11" | "C12" | "C16" => judgeGov prop st fields impl model
   | "C09" | "C10" => judgeTm prop st fields impl model implMsg
   | "C15" => judgeGas st fields impl
   | "C01" | "C02" | "C03" => judgeGateway prop st fields impl
